@@ -3,7 +3,9 @@
     A TIME MAP [phi] (shift by d seconds; mirror image about the start time) is applied to every time of
     the set-up — the clock, every forcing frame of every file, every release row — together with a value
     map [g] on the velocities (identity; sign flip).  If the new clock numbers the image of every time with
-    the same step, keeps windows, simulation order and the time grid, then the transformed set-up is
+    the same step (and puts every step at the image of its time), keeps the three window filters of the
+    releaser, simulation order, the time grid, every frequency grid and the np.arange of the ticks of
+    continuous release, then — in both release modes — the transformed set-up is
     well-formed when the original is, and its run — compiled by the component MACHINES from the transformed
     files and tables — holds the same particles with the same values in every record. *)
 From Coq Require Import ZArith QArith List Bool Lia.
@@ -36,9 +38,15 @@ Section Transform.
   Variable phi : Z -> Z.
   Variable g : Q -> Q.
   Hypothesis P_step : forall x, time2step t' (phi x) = time2step t x.
-  Hypothesis P_win : forall x, in_window t' (phi x) = in_window t x.
+  Hypothesis P_s2t : forall n, step2time t' n = phi (step2time t n).
+  Hypothesis P_stop : forall x, before_stop t' (phi x) = before_stop t x.
+  Hypothesis P_from : forall x, from_start t' (phi x) = from_start t x.
+  Hypothesis P_after : forall x, after_start t' (phi x) = after_start t x.
   Hypothesis P_le : forall a b, sim_le t' (phi a) (phi b) = sim_le t a b.
   Hypothesis P_grid : forall x, ((phi x - start t') mod dt t' =? 0) = ((x - start t) mod dt t =? 0).
+  Hypothesis P_mod : forall f a b, ((phi b - phi a) mod f =? 0) = ((b - a) mod f =? 0).
+  Hypothesis P_arange : forall f a,
+    arange (phi a) (stop t') (if rev t' then - f else f) = map phi (arange a (stop t) (if rev t then - f else f)).
   Hypothesis P_inj : forall a b, phi a = phi b -> a = b.
   Hypothesis P_dt : dt t' = dt t.
   Hypothesis P_n : nsteps t' = nsteps t.
@@ -52,8 +60,12 @@ Section Transform.
   Definition tr_row (r : row) : row := {| rt := phi (rt r); rmult := rmult r; rvals := rvals r |}.
   Definition tr_setup (s : setup) : setup :=
     {| s_tk := t'; s_files := map (map tr_rec) (s_files s); s_tab := map tr_row (s_tab s);
-       s_period := s_period s; s_dtdx := s_dtdx s; s_lo := s_lo s; s_hi := s_hi s;
+       s_cont := s_cont s; s_period := s_period s; s_dtdx := s_dtdx s; s_lo := s_lo s; s_hi := s_hi s;
        s_life := s_life s; s_cfac := s_cfac s |}.
+
+  (** the simulated window is kept *)
+  Lemma P_win x : in_window t' (phi x) = in_window t x.
+  Proof. rewrite <- !window_bools, P_stop, P_from. reflexivity. Qed.
 
   (** ** forcing: same frames at the same steps, values mapped by g *)
   Lemma scan_file_tr k recs : forall i, scan_file t' k i (map tr_rec recs) = scan_file t k i recs.
@@ -105,11 +117,122 @@ Section Transform.
   Lemma row_part_tr r : row_part (tr_row r) = row_part r.
   Proof. reflexivity. Qed.
 
+  (** filters, groups, distinct times *)
+  Lemma filter_time_tr' p q tab : (forall x, q (phi x) = p x) ->
+    filter_time q (map tr_row tab) = map tr_row (filter_time p tab).
+  Proof.
+    intro H. unfold filter_time. rewrite filter_map_comm. f_equal. apply filter_ext. intro r. cbn. apply H.
+  Qed.
+  Lemma eqb_tr a b : (phi a =? phi b) = (a =? b).
+  Proof.
+    destruct (Z.eqb_spec a b) as [->|N]; [apply Z.eqb_refl|]. apply Z.eqb_neq. intro E. apply N, P_inj, E.
+  Qed.
+  Lemma rows_at_tr x tab : rows_at (phi x) (map tr_row tab) = map tr_row (rows_at x tab).
+  Proof. unfold rows_at. apply filter_time_tr'. intro y. apply eqb_tr. Qed.
+  Lemma uniq_tr l : uniq (map phi l) = map phi (uniq l).
+  Proof.
+    induction l as [|x l IH]; cbn [map uniq]; [reflexivity|]. f_equal. rewrite IH, filter_map_comm. f_equal.
+    apply filter_ext. intro y. rewrite eqb_tr. reflexivity.
+  Qed.
+  Lemma map_rt_tr tab : map rt (map tr_row tab) = map phi (map rt tab).
+  Proof. rewrite !map_map. reflexivity. Qed.
+  Lemma group_by_time_tr tab : group_by_time (map tr_row tab) = map (map tr_row) (group_by_time tab).
+  Proof.
+    unfold group_by_time. rewrite map_rt_tr, uniq_tr, !map_map. apply map_ext. intro x. apply rows_at_tr.
+  Qed.
+  Lemma steps_tr tab :
+    map (time2step t') (uniq (map rt (map tr_row tab))) = map (time2step t) (uniq (map rt tab)).
+  Proof. rewrite map_rt_tr, uniq_tr, map_map. apply map_ext. intro x. apply P_step. Qed.
+  Lemma retime_tr x gr : map (retime (phi x)) (map tr_row gr) = map tr_row (map (retime x) gr).
+  Proof. rewrite !map_map. apply map_ext. intro r. reflexivity. Qed.
+  Lemma expand_tr gr : expand (map tr_row gr) = map tr_row (expand gr).
+  Proof.
+    unfold expand. rewrite flat_map_map_comm. induction gr as [|r gr IH]; [reflexivity|]. cbn [flat_map].
+    rewrite map_app, <- IH, map_repeat'. reflexivity.
+  Qed.
+
+  (** continuous release: discretize() yields the images of the rows it yields for the original *)
+  Lemma lookup_group_tr tab x :
+    lookup_group (map tr_row tab) (phi x) = option_map (map tr_row) (lookup_group tab x).
+  Proof. unfold lookup_group. rewrite rows_at_tr. destruct (rows_at x tab); reflexivity. Qed.
+  Lemma join_ffill_tr tab ticks : forall last,
+    join_ffill (map tr_row tab) (option_map (map tr_row) last) (map phi ticks) = map tr_row (join_ffill tab last ticks).
+  Proof.
+    induction ticks as [|x r IH]; intro last; [reflexivity|]. cbn [map join_ffill].
+    rewrite lookup_group_tr.
+    set (cur := match lookup_group tab x with Some g => Some g | None => last end).
+    assert (match option_map (map tr_row) (lookup_group tab x) with
+            | Some g => Some g | None => option_map (map tr_row) last end = option_map (map tr_row) cur) as ->
+      by (unfold cur; destruct (lookup_group tab x); reflexivity).
+    rewrite IH, map_app. f_equal. destruct cur; cbn [option_map]; [apply retime_tr|reflexivity].
+  Qed.
+  Lemma discretize_tr f tab : discretize t' f (map tr_row tab) = map tr_row (discretize t f tab).
+  Proof.
+    unfold discretize. destruct tab as [|r0 tab]; [reflexivity|].
+    change (map tr_row (r0 :: tab)) with (tr_row r0 :: map tr_row tab). cbv iota.
+    change (tr_row r0 :: map tr_row tab) with (map tr_row (r0 :: tab)).
+    change (rt (tr_row r0)) with (phi (rt r0)). rewrite P_arange.
+    exact (join_ffill_tr (r0 :: tab) _ None).
+  Qed.
+
+  (** start-up of the releaser (both modes, cold or warm): refused iff the original is; the images of the
+      rows in the same groups; the SAME list of release steps *)
+  Definition tr_res (r : init_res) : init_res :=
+    match r with
+    | RelExit => RelExit
+    | RelOk tab groups steps => RelOk (map tr_row tab) (map (map tr_row) groups) steps
+    end.
+  Theorem rel_init_tr c warm tab : rel_init t' c warm (map tr_row tab) = tr_res (rel_init t c warm tab).
+  Proof.
+    unfold rel_init. rewrite (filter_time_tr' (before_stop t) (before_stop t')) by exact P_stop.
+    destruct (filter_time (before_stop t) tab) as [|r0 d1]; [reflexivity|].
+    change (map tr_row (r0 :: d1)) with (tr_row r0 :: map tr_row d1). cbv iota zeta.
+    change (tr_row r0 :: map tr_row d1) with (map tr_row (r0 :: d1)).
+    set (d2 := match c with Some f => discretize t f (r0 :: d1) | None => r0 :: d1 end).
+    assert (match c with Some f => discretize t' f (map tr_row (r0 :: d1)) | None => map tr_row (r0 :: d1) end
+            = map tr_row d2) as -> by (unfold d2; destruct c; [apply discretize_tr|reflexivity]).
+    rewrite (filter_time_tr' (from_start t) (from_start t')) by exact P_from.
+    set (d3 := filter_time (from_start t) d2).
+    set (d4 := if warm then filter_time (after_start t) d3 else d3).
+    assert ((if warm then filter_time (after_start t') (map tr_row d3) else map tr_row d3) = map tr_row d4) as ->
+      by (unfold d4; destruct warm; [apply filter_time_tr'; exact P_after|reflexivity]).
+    clearbody d4. rewrite group_by_time_tr, steps_tr.
+    destruct d4 as [|r d4']; destruct warm; reflexivity.
+  Qed.
+
+  (** the specification of continuous release *)
+  Lemma later_tr x best y : later t' (phi x) (option_map phi best) (phi y) = option_map phi (later t x best y).
+  Proof.
+    unfold later. rewrite P_le. destruct (sim_le t y x); [|reflexivity].
+    destruct best as [b|]; cbn [option_map]; [|reflexivity]. rewrite P_le. destruct (sim_le t b y); reflexivity.
+  Qed.
+  Lemma latest_tr tab x : latest t' (map tr_row tab) (phi x) = option_map phi (latest t tab x).
+  Proof.
+    unfold latest. rewrite map_rt_tr. change (@None Z) with (option_map phi None) at 1.
+    generalize (@None Z). induction (map rt tab) as [|y l IH]; intro best; [reflexivity|].
+    cbn [map fold_left]. rewrite later_tr. apply IH.
+  Qed.
+  Lemma is_tick_tr f a x : is_tick t' f (phi a) (phi x) = is_tick t f a x.
+  Proof. unfold is_tick. rewrite P_le, P_mod, P_stop. reflexivity. Qed.
+  Lemma the_start_tr warm x : the_start t' warm (phi x) = the_start t warm x.
+  Proof. destruct warm; cbn [the_start]; [apply P_after|apply P_from]. Qed.
+  Lemma cont_released_at_tr f warm tab n :
+    cont_released_at t' f warm (map tr_row tab) n = map tr_row (cont_released_at t f warm tab n).
+  Proof.
+    unfold cont_released_at. rewrite (filter_time_tr' (before_stop t) (before_stop t')) by exact P_stop.
+    destruct (filter_time (before_stop t) tab) as [|r0 W]; [reflexivity|].
+    change (map tr_row (r0 :: W)) with (tr_row r0 :: map tr_row W). cbv iota zeta.
+    change (tr_row r0 :: map tr_row W) with (map tr_row (r0 :: W)).
+    change (rt (tr_row r0)) with (phi (rt r0)).
+    rewrite P_s2t, is_tick_tr, the_start_tr.
+    destruct (is_tick t f (rt r0) (step2time t n) && the_start t warm (step2time t n)); [|reflexivity].
+    rewrite latest_tr. destruct (latest t (r0 :: W) (step2time t n)) as [y|]; cbn [option_map]; [|reflexivity].
+    rewrite rows_at_tr, retime_tr, expand_tr. reflexivity.
+  Qed.
+
   (** ** well-formedness is preserved *)
   Lemma filter_time_tr tab : filter_time (in_window t') (map tr_row tab) = map tr_row (filter_time (in_window t) tab).
-  Proof.
-    unfold filter_time. rewrite filter_map_comm. f_equal. apply filter_ext. intro r. cbn. apply P_win.
-  Qed.
+  Proof. apply filter_time_tr'. exact P_win. Qed.
   Lemma sim_sorted_tr l : sim_sorted t' (map phi l) = sim_sorted t l.
   Proof.
     induction l as [|x r IH]; [reflexivity|]. cbn [map sim_sorted]. rewrite IH.
@@ -120,16 +243,29 @@ Section Transform.
     unfold table_ok. rewrite map_map. cbn [tr_row rt]. rewrite <- (map_map rt phi), sim_sorted_tr. f_equal.
     rewrite forallb_map'. apply forallb_ext'. intro r. unfold Release.on_grid. cbn. apply P_grid.
   Qed.
+  Lemma freq_grid_tr f tab : freq_grid f (map tr_row tab) = freq_grid f tab.
+  Proof.
+    unfold freq_grid. destruct tab as [|r0 tab]; [reflexivity|].
+    change (map tr_row (r0 :: tab)) with (tr_row r0 :: map tr_row tab). cbv iota.
+    change (tr_row r0 :: map tr_row tab) with (map tr_row (r0 :: tab)).
+    rewrite forallb_map'. apply forallb_ext'. intro r. cbn [tr_row rt]. apply P_mod.
+  Qed.
+  Lemma cont_ok_tr f tab : cont_ok t' f (map tr_row tab) = cont_ok t f tab.
+  Proof.
+    unfold cont_ok. rewrite (filter_time_tr' (before_stop t) (before_stop t')) by exact P_stop.
+    rewrite map_rt_tr, sim_sorted_tr, freq_grid_tr, P_dt. f_equal.
+    destruct (filter_time (before_stop t) tab) as [|r0 W]; [reflexivity|].
+    cbn [map tr_row rt]. unfold Release.on_grid. apply P_grid.
+  Qed.
+  Lemma tab_ok_tr s : s_tk s = t -> tab_ok (tr_setup s) = tab_ok s.
+  Proof.
+    intro E. unfold tab_ok. cbn [tr_setup s_tk s_tab s_cont]. rewrite E.
+    destruct (s_cont s) as [f|]; [apply cont_ok_tr|]. rewrite filter_time_tr. apply table_ok_tr.
+  Qed.
   Lemma started_tr s : s_tk s = t -> started (tr_setup s) = started s.
   Proof.
-    intro E. unfold started. cbn [tr_setup s_tk s_tab]. rewrite E.
-    destruct (rel_init t None false (s_tab s)) as [|a b c] eqn:E1;
-      destruct (rel_init t' None false (map tr_row (s_tab s))) as [|a' b' c'] eqn:E2; try reflexivity.
-    - apply refusal_cold in E1. assert (filter_time (in_window t') (map tr_row (s_tab s)) = []) as N
-        by (rewrite filter_time_tr, E1; reflexivity).
-      apply refusal_cold in N. congruence.
-    - apply refusal_cold in E2. rewrite filter_time_tr in E2. apply map_eq_nil in E2.
-      apply refusal_cold in E2. congruence.
+    intro E. unfold started. cbn [tr_setup s_tk s_tab s_cont]. rewrite E, rel_init_tr.
+    destruct (rel_init t (s_cont s) false (s_tab s)); reflexivity.
   Qed.
   Lemma layout_times_tr files : layout_times (map (map tr_rec) files) = map phi (layout_times files).
   Proof.
@@ -151,9 +287,9 @@ Section Transform.
 
   Lemma setup_ok_tr s : s_tk s = t -> setup_ok (tr_setup s) = setup_ok s.
   Proof.
-    intro E. unfold setup_ok. rewrite (started_tr s E).
+    intro E. unfold setup_ok. rewrite (started_tr s E), (tab_ok_tr s E).
     unfold s_raw, s_nsteps. cbn [tr_setup s_tk s_files s_tab]. rewrite E.
-    rewrite scan_tr, filter_time_tr, table_ok_tr, on_grid_tr, layout_times_tr, nodupb_tr, P_dt, P_n. reflexivity.
+    rewrite scan_tr, on_grid_tr, layout_times_tr, nodupb_tr, P_dt, P_n. reflexivity.
   Qed.
 
   (** ** the specification environments agree *)
@@ -173,8 +309,9 @@ Section Transform.
   Qed.
   Lemma sp_release_tr s n : s_tk s = t -> sp_release (tr_setup s) n = sp_release s n.
   Proof.
-    intro E. unfold sp_release. cbn [tr_setup s_tk s_tab]. rewrite E, released_at_tr, map_map.
-    apply map_ext. intro r. apply row_part_tr.
+    intro E. unfold sp_release, sp_rows. cbn [tr_setup s_tk s_tab s_cont]. rewrite E.
+    destruct (s_cont s) as [f|]; [rewrite cont_released_at_tr|rewrite released_at_tr]; rewrite map_map;
+      apply map_ext; intro r; apply row_part_tr.
   Qed.
 
   (** ** the transformed set-up is well-formed and runs alike *)
@@ -193,13 +330,38 @@ Section Transform.
 End Transform.
 
 (** * Instance 1: time shift (C14) *)
-Lemma in_window_shift t d x : in_window (shift_tk t d) (x + d) = in_window t x.
+Lemma before_stop_shift t d x : before_stop (shift_tk t d) (x + d) = before_stop t x.
 Proof.
-  unfold in_window, shift_tk. cbn [start stop dt ref rev]. destruct (rev t); f_equal.
+  unfold before_stop, shift_tk. cbn [start stop dt ref rev]. destruct (rev t).
   - destruct (Z.ltb_spec (stop t + d) (x + d)), (Z.ltb_spec (stop t) x); try reflexivity; lia.
+  - destruct (Z.ltb_spec (x + d) (stop t + d)), (Z.ltb_spec x (stop t)); try reflexivity; lia.
+Qed.
+Lemma from_start_shift t d x : from_start (shift_tk t d) (x + d) = from_start t x.
+Proof.
+  unfold from_start, shift_tk. cbn [start stop dt ref rev]. destruct (rev t).
   - destruct (Z.leb_spec (x + d) (start t + d)), (Z.leb_spec x (start t)); try reflexivity; lia.
   - destruct (Z.leb_spec (start t + d) (x + d)), (Z.leb_spec (start t) x); try reflexivity; lia.
-  - destruct (Z.ltb_spec (x + d) (stop t + d)), (Z.ltb_spec x (stop t)); try reflexivity; lia.
+Qed.
+Lemma after_start_shift t d x : after_start (shift_tk t d) (x + d) = after_start t x.
+Proof.
+  unfold after_start, shift_tk. cbn [start stop dt ref rev]. destruct (rev t).
+  - destruct (Z.ltb_spec (x + d) (start t + d)), (Z.ltb_spec x (start t)); try reflexivity; lia.
+  - destruct (Z.ltb_spec (start t + d) (x + d)), (Z.ltb_spec (start t) x); try reflexivity; lia.
+Qed.
+Lemma mod_shift (d f a b : Z) : ((b + d - (a + d)) mod f =? 0) = ((b - a) mod f =? 0).
+Proof. replace (b + d - (a + d)) with (b - a) by lia. reflexivity. Qed.
+Lemma arange_aux_shift d n : forall a s, arange_aux n (a + d) s = map (fun x => x + d) (arange_aux n a s).
+Proof.
+  induction n as [|n IH]; intros a s; [reflexivity|]. cbn [arange_aux map]. f_equal.
+  replace (a + d + s) with (a + s + d) by lia. apply IH.
+Qed.
+Lemma arange_shift t d f a :
+  arange (a + d) (stop (shift_tk t d)) (if rev (shift_tk t d) then - f else f) =
+  map (fun x => x + d) (arange a (stop t) (if rev t then - f else f)).
+Proof.
+  unfold shift_tk. cbn [stop rev]. generalize (if rev t then - f else f). intro s. unfold arange.
+  replace (stop t + d - (a + d)) with (stop t - a) by lia. replace (a + d - (stop t + d)) with (a - stop t) by lia.
+  destruct (0 <? s); [apply arange_aux_shift|]. destruct (s <? 0); [apply arange_aux_shift|reflexivity].
 Qed.
 Lemma sim_le_shift t d a b : sim_le (shift_tk t d) (a + d) (b + d) = sim_le t a b.
 Proof.
@@ -236,37 +398,62 @@ Theorem shift_invariance s d : setup_ok s = true ->
 Proof.
   intro Hok.
   exact (transformed_runs_alike (s_tk s) (shift_tk (s_tk s) d) (fun x => x + d) (fun uv => uv)
-           (time2step_shift (s_tk s) d) (in_window_shift (s_tk s) d) (sim_le_shift (s_tk s) d)
-           (grid_shift (s_tk s) d)
+           (time2step_shift (s_tk s) d) (step2time_shift (s_tk s) d)
+           (before_stop_shift (s_tk s) d) (from_start_shift (s_tk s) d) (after_start_shift (s_tk s) d)
+           (sim_le_shift (s_tk s) d) (grid_shift (s_tk s) d) (mod_shift d) (arange_shift (s_tk s) d)
            (shift_inj d) eq_refl (nsteps_shift (s_tk s) d)
            lerp_id (sign_shift (s_tk s) d) eq_refl
            s eq_refl Hok).
 Qed.
 
 (** * Instance 2: time mirror (C10) *)
-Lemma in_window_mirror t x : in_window (mirror_tk t) (mirror_time t x) = in_window t x.
-Proof.
-  rewrite <- !window_bools.
-  rewrite (before_stop_mirror t x), (from_start_mirror t x).
-  reflexivity.
-Qed.
 Lemma sim_le_mirror t a b : sim_le (mirror_tk t) (mirror_time t a) (mirror_time t b) = sim_le t a b.
 Proof.
   unfold sim_le, mirror_tk, mirror_time. cbn [start rev]. destruct (rev t); cbn [negb].
   - destruct (Z.leb_spec (2 * start t - a) (2 * start t - b)), (Z.leb_spec b a); try reflexivity; lia.
   - destruct (Z.leb_spec (2 * start t - b) (2 * start t - a)), (Z.leb_spec a b); try reflexivity; lia.
 Qed.
+Lemma mod_opp_eqb (x f : Z) : ((- x) mod f =? 0) = (x mod f =? 0).
+Proof.
+  destruct (Z.eq_dec f 0) as [E|E].
+  - rewrite E, !Zmod_0_r. destruct (Z.eqb_spec (- x) 0), (Z.eqb_spec x 0); try reflexivity; lia.
+  - destruct (Z.eqb_spec (x mod f) 0) as [H|H].
+    + rewrite Z.mod_opp_l_z by assumption. reflexivity.
+    + destruct (Z.eqb_spec ((- x) mod f) 0) as [H'|H']; [|reflexivity].
+      exfalso. apply H. rewrite <- (Z.opp_involutive x). apply Z.mod_opp_l_z; assumption.
+Qed.
 Lemma grid_mirror t x :
   ((mirror_time t x - start (mirror_tk t)) mod dt (mirror_tk t) =? 0) = ((x - start t) mod dt t =? 0).
 Proof.
   unfold mirror_tk, mirror_time. cbn [start dt].
-  replace (2 * start t - x - start t) with (- (x - start t)) by lia.
-  destruct (Z.eq_dec (dt t) 0) as [E|E].
-  - rewrite E, !Zmod_0_r. destruct (Z.eqb_spec (- (x - start t)) 0), (Z.eqb_spec (x - start t) 0); try reflexivity; lia.
-  - destruct (Z.eqb_spec ((x - start t) mod dt t) 0) as [H|H].
-    + rewrite Z.mod_opp_l_z by assumption. reflexivity.
-    + destruct (Z.eqb_spec ((- (x - start t)) mod dt t) 0) as [H'|H']; [|reflexivity].
-      exfalso. apply H. rewrite <- (Z.opp_involutive (x - start t)). apply Z.mod_opp_l_z; assumption.
+  replace (2 * start t - x - start t) with (- (x - start t)) by lia. apply mod_opp_eqb.
+Qed.
+Lemma mod_mirror t (f a b : Z) : ((mirror_time t b - mirror_time t a) mod f =? 0) = ((b - a) mod f =? 0).
+Proof.
+  unfold mirror_time. replace (2 * start t - b - (2 * start t - a)) with (- (b - a)) by lia. apply mod_opp_eqb.
+Qed.
+Lemma arange_aux_neg c n : forall a s, arange_aux n (c - a) (- s) = map (fun x => c - x) (arange_aux n a s).
+Proof.
+  induction n as [|n IH]; intros a s; [reflexivity|]. cbn [arange_aux map]. f_equal.
+  replace (c - a + - s) with (c - (a + s)) by lia. apply IH.
+Qed.
+Lemma arange_mirror t f a :
+  arange (mirror_time t a) (stop (mirror_tk t)) (if rev (mirror_tk t) then - f else f) =
+  map (mirror_time t) (arange a (stop t) (if rev t then - f else f)).
+Proof.
+  unfold mirror_tk. cbn [stop rev].
+  assert ((if negb (rev t) then - f else f) = - (if rev t then - f else f)) as -> by (destruct (rev t); cbn [negb]; lia).
+  generalize (if rev t then - f else f). intro s. unfold arange, mirror_time.
+  replace (2 * start t - stop t - (2 * start t - a)) with (a - stop t) by lia.
+  replace (2 * start t - a - (2 * start t - stop t)) with (stop t - a) by lia.
+  rewrite Z.opp_involutive.
+  destruct (Z.ltb_spec 0 s) as [P|P].
+  - assert (0 <? - s = false) as -> by (apply Z.ltb_ge; lia). assert (- s <? 0 = true) as -> by (apply Z.ltb_lt; lia).
+    apply arange_aux_neg.
+  - destruct (Z.ltb_spec s 0) as [N|N].
+    + assert (0 <? - s = true) as -> by (apply Z.ltb_lt; lia). apply arange_aux_neg.
+    + assert (0 <? - s = false) as -> by (apply Z.ltb_ge; lia). assert (- s <? 0 = false) as -> by (apply Z.ltb_ge; lia).
+      reflexivity.
 Qed.
 
 (** T-mirror: replace the clock by the clock of the opposite direction over the mirrored time axis
@@ -279,7 +466,9 @@ Theorem mirror_invariance s : setup_ok s = true ->
 Proof.
   intro Hok.
   exact (transformed_runs_alike (s_tk s) (mirror_tk (s_tk s)) (mirror_time (s_tk s)) Qopp
-           (time2step_mirror (s_tk s)) (in_window_mirror (s_tk s)) (sim_le_mirror (s_tk s)) (grid_mirror (s_tk s))
+           (time2step_mirror (s_tk s)) (step2time_mirror (s_tk s))
+           (before_stop_mirror (s_tk s)) (from_start_mirror (s_tk s)) (after_start_mirror (s_tk s))
+           (sim_le_mirror (s_tk s)) (grid_mirror (s_tk s)) (mod_mirror (s_tk s)) (arange_mirror (s_tk s))
            (mirror_inj (s_tk s)) eq_refl (nsteps_mirror (s_tk s))
            lerp_spec_neg (sign_mirror (s_tk s)) eq_refl
            s eq_refl Hok).
